@@ -15,7 +15,6 @@
 package syncsim
 
 import (
-	"verif/engines/knobs"
 	"bytes"
 	"context"
 	"encoding/json"
@@ -23,6 +22,7 @@ import (
 	"fmt"
 	"io"
 	"time"
+	"verif/engines/knobs"
 
 	"go4.org/jsonconfig"
 	"perkeep.org/pkg/blob"
@@ -162,12 +162,14 @@ func (s *srcStore) Fetch(ctx context.Context, br blob.Ref) (io.ReadCloser, uint3
 }
 
 type segment struct {
-	r        *run
-	no       int
-	gen      *sim.Gen
-	ops      []Op
-	base     int
-	src      blobserver.Storage
+	r    *run
+	no   int
+	gen  *sim.Gen
+	ops  []Op
+	base int
+	src  blobserver.Storage
+	// up: what clients upload to (the source, or a replica set over it)
+	up       blobserver.Storage
 	sh       *server.SyncHandler
 	buildErr error
 	// the second handler (Config.Dests == 2)
@@ -270,6 +272,9 @@ func (r *run) exec() {
 	r.w.Register(&sim.Node{Type: "sim", Name: "dst"})
 	if r.cfg.Dests == 2 {
 		r.w.Register(&sim.Node{Type: "sim", Name: "dst2"})
+	}
+	if r.cfg.ViaReplica {
+		r.w.Register(&sim.Node{Type: "sim", Name: "aux"})
 	}
 
 	for _, bi := range r.cfg.Pre {
@@ -449,7 +454,16 @@ func (s *segment) build() {
 		s.buildErr = err
 		return
 	}
-	s.src = src
+	s.src, s.up = src, src
+	if r.cfg.ViaReplica {
+		via, err := blobserver.CreateStorage("replica", ld, jsonconfig.Obj{"backends": []any{"/src/", "/aux/"}})
+		if err != nil {
+			s.buildErr = err
+			return
+		}
+		s.up = via
+		r.out.Reached["uploads-through-a-replica-set"]++
+	}
 	if r.cfg.Dests == 2 {
 		// a second handler on the same source, constructed at the same
 		// time (serverinit builds its handlers one after the other, but
@@ -531,7 +545,7 @@ func (s *segment) upload(idx, bi int, cancelAfterStore bool) {
 		ci.cancel = cancel
 		ctx = c
 	}
-	_, err := blobserver.Receive(ctx, s.src, b.Ref, bytes.NewReader(b.Data))
+	_, err := blobserver.Receive(ctx, s.up, b.Ref, bytes.NewReader(b.Data))
 	if s.dead() {
 		// the process died before the client saw an answer
 		select {}
